@@ -441,10 +441,12 @@ class ExecutionFlowBuilder:
         instr: UniqueInstruction,
     ) -> None:
         if not self._decrease_instr_original_index(efb_state):
-            if (
-                instr.is_jump_target
-                and previous_traced_instr.is_jump()
-                and previous_traced_instr.argument == efb_state.previous_node_id
+            if previous_traced_instr.is_jump() and (
+                (instr.is_jump_target and previous_traced_instr.argument == efb_state.previous_node_id)
+                or (
+                    previous_traced_instr.code_object_id == efb_state.previous_code_object_id
+                    and previous_traced_instr.argument in self._empty_blocks_in_front(efb_state)
+                )
             ):
                 # The previous instruction jumps to the current instruction,
                 # so we continue at the previous traced instruction.
@@ -456,6 +458,21 @@ class ExecutionFlowBuilder:
             else:
                 # This is not a jump target, so proceed with previous block (in case there is one)
                 self._continue_at_last_basic_block(efb_state)
+
+    def _empty_blocks_in_front(self, efb_state: ExecutionFlowBuilderState) -> set[int]:
+        """Ids of the empty basic blocks (TryBegin/TryEnd only) directly in front of the current one.
+
+        A jump to such a block continues at the first instruction of the current block.
+        """
+        empty: set[int] = set()
+        node_id = efb_state.previous_node_id - 1
+        while node_id >= 0:
+            node, _ = self._get_node(efb_state.previous_code_object_id, node_id)
+            if any(True for _ in node.original_instructions):
+                break
+            empty.add(node_id)
+            node_id -= 1
+        return empty
 
     def _handle_return_instructions(
         self,
